@@ -462,5 +462,7 @@ Proof.
     apply RingToRns_eq_Forall. congruence.
 Qed.
 
+Example fixed_tree_hyps : good_moduli [7; 10; 9; 11; 13] /\ canonical [6; 0; 8; 3; 12] [7; 10; 9; 11; 13].
+Proof. split; [split|]; repeat constructor; try lia; reflexivity. Qed.
 Example fixed_tree_example : fixed_RnsToRing [7; 10; 9; 11; 13] [6; 0; 8; 3; 12] = 56510.
 Proof. vm_compute. reflexivity. Qed.
